@@ -45,6 +45,8 @@ const VERBOSITIES = [undefined, 'OFF', 'MANDATORY', 'INFORMATION', 'DEBUG', 'deb
 
 module.exports = mk({
   id: 'C15',
+  thoroughWorkers: 12,
+  thoroughHeapMB: 5000,
   families: ['A', 'C', 'M', 'S', 'T', 'H', 'Q', 'R', 'N', 'L'],
   familyOpts: () => ({}),
   // the grammar families are judged under DEBUG verbosity (per-tag breakdown is the richer oracle) and with
@@ -60,7 +62,9 @@ module.exports = mk({
     const L = tier === 'thorough' ? 4 : 3
     const dims = []
     for (let i = 0; i < L; i++) dims.push({ name: 's' + i, symbols: names, free: true })
-    dims.push({ name: 'verb', symbols: tier === 'thorough' ? VERBOSITIES : [undefined, 'OFF', 'MANDATORY', 'DEBUG'], free: true })
+    // (the remaining spellings are covered by the spelling family below; six verbosities made the thorough list 5.7 million
+    // leaves, which every worker has to hold)
+    dims.push({ name: 'verb', symbols: [undefined, 'OFF', 'MANDATORY', 'DEBUG'], free: true })
     dims.push({ name: 'cfg', symbols: ['FULL', 'RENAMED'] })
     dims.push({ name: 'file', symbols: tier === 'thorough' ? ['/p/app.js', 'rel/x.js'] : ['/p/app.js'] })
     const r = enumerate(dims, { k: 1, valid: (cur, i) => { if (i < L) for (let j = 0; j < i; j++) if (cur['s' + j] === cur['s' + i]) return false; return true } })
